@@ -787,3 +787,119 @@ Proof.
     rewrite occurs_in_to_unique. now rewrite hmemb_outer_list.
   - apply nodup_sel. unfold buckets_of. apply buckets_inv; constructor.
 Qed.
+
+(* ================================================================== *)
+(* SORTED / SORTED_UNIQUE                                               *)
+Lemma sorted_meets args : meets (m_sorted args) (s_sorted args).
+Proof.
+  destruct args as [|a [|b r]]; cbn; [constructor | | destruct a; constructor].
+  destruct a; cbn; try constructor.
+  - apply sort_values_sorted.
+  - apply Permutation_PermutationA; [apply struct_eq_equiv | apply sort_values_perm].
+Qed.
+
+Definition vle (a b : value) : Prop := value_leb a b = true.
+Lemma vle_trans a b c : G a -> G b -> G c -> vle a b -> vle b c -> vle a c.
+Proof.
+  unfold vle, value_leb. intros Ga Gb Gc H1 H2. apply Z.leb_le in H1, H2. apply Z.leb_le.
+  now apply (vcompare_trans a b c).
+Qed.
+Lemma sortedb_strongly l : Forall G l -> sortedb l = true -> StronglySorted vle l.
+Proof.
+  induction l as [|x r IH]; intros Hg Hs; [constructor|].
+  inversion Hg as [|? ? Gx Gr]; subst.
+  assert (Hr : sortedb r = true) by (destruct r; [reflexivity | cbn in Hs; now apply andb_prop in Hs]).
+  specialize (IH Gr Hr). constructor; [exact IH|].
+  destruct r as [|y r']; [constructor|]. cbn in Hs. apply andb_prop in Hs as [Hxy _].
+  inversion IH as [|? ? _ Hy]; subst. inversion Gr as [|? ? Gy Gr']; subst.
+  constructor; [exact Hxy|]. rewrite Forall_forall in *. intros z Hz.
+  apply (vle_trans x y z); auto.
+Qed.
+Lemma strongly_sortedb l : StronglySorted vle l -> sortedb l = true.
+Proof.
+  induction 1 as [|x r Hr IH Hx]; [reflexivity|]. destruct r as [|y r']; [reflexivity|].
+  cbn. inversion Hx; subst. apply andb_true_intro. split; assumption.
+Qed.
+Lemma uniq_loop_incl y l : forall seen, In y (uniq_loop l seen) -> In y l.
+Proof.
+  induction l as [|x r IH]; intros seen H; [exact H|]. cbn [uniq_loop] in H.
+  destruct (hmemb x seen); [right; eapply IH; eauto|].
+  destruct H as [->|H]; [now left | right; eapply IH; eauto].
+Qed.
+Lemma uniq_loop_strongly l : StronglySorted vle l -> forall seen, StronglySorted vle (uniq_loop l seen).
+Proof.
+  induction 1 as [|x r Hr IH Hx]; intros seen; cbn [uniq_loop]; [constructor|].
+  destruct (hmemb x seen); [apply IH|]. constructor; [apply IH|].
+  rewrite Forall_forall in *. intros z Hz. apply Hx. eapply uniq_loop_incl; eauto.
+Qed.
+Lemma sorted_unique_meets_guarded l : Forall G l ->
+  meets (m_sorted_unique [VArr l]) (s_sorted_unique [VArr l]).
+Proof.
+  intros Hg. cbn. constructor.
+  - apply strongly_sortedb, uniq_loop_strongly, sortedb_strongly; [|apply sort_values_sorted].
+    eapply Permutation_Forall; [apply sort_values_perm | exact Hg].
+  - intros y. rewrite <- (to_unique_set (sort_values l) y). unfold hmem.
+    split; intros [z [Hz E]]; exists z; split; auto.
+    + eapply Permutation_in; [apply sort_values_perm | exact Hz].
+    + eapply Permutation_in; [apply Permutation_sym, sort_values_perm | exact Hz].
+  - apply to_unique_nodup.
+Qed.
+
+(* ================================================================== *)
+(* FLATTEN                                                              *)
+Fixpoint expand (d : nat) (v : value) {struct d} : list value :=
+  match v with
+  | VArr i => match d with O => [v] | S d' => flat_map (expand d') i end
+  | _ => [v]
+  end.
+Lemma expand_flatten d : forall l, flat_map (expand d) l = flatten_spec d l.
+Proof.
+  induction d as [|d IH]; intros l.
+  - induction l as [|x r IHl]; [reflexivity|]. cbn [flat_map flatten_spec] in *. rewrite IHl.
+    destruct x; reflexivity.
+  - cbn [flatten_spec]. induction l as [|x r IHl]; [reflexivity|]. cbn [flat_map]. rewrite IHl.
+    f_equal. destruct x; try reflexivity. cbn [expand]. apply IH.
+Qed.
+Lemma unwrap_val_arr level inner cl :
+  unwrap_val level (VArr inner) cl =
+  if cl >? level then ([VArr inner], cl)
+  else let r := unwrap_list level inner (cl + 1) in (fst r, snd r - 1).
+Proof.
+  cbn [unwrap_val]. destruct (cl >? level); [reflexivity|].
+  assert (E : forall l c,
+    (fix go (l : list value) (c : Z) {struct l} : list value * Z :=
+       match l with
+       | [] => ([], c)
+       | x :: rest =>
+           let r1 := unwrap_val level x c in
+           let r2 := go rest (snd r1) in (fst r1 ++ fst r2, snd r2)
+       end) l c = unwrap_list level l c).
+  { induction l as [|x r IH]; intros c; [reflexivity|]. cbn [unwrap_list]. now rewrite IH. }
+  now rewrite E.
+Qed.
+Lemma unwrap_val_spec level : forall v cl,
+  unwrap_val level v cl = (expand (Z.to_nat (level - cl + 1)) v, cl).
+Proof.
+  induction v as [|b1|z1|f1|s1|s1 n1 o1|l IH|m IH|b1] using value_ind'; intros cl;
+    try (cbn; now destruct (Z.to_nat (level - cl + 1))).
+  rewrite unwrap_val_arr. destruct (cl >? level) eqn:E.
+  - replace (Z.to_nat (level - cl + 1)) with O by lia. reflexivity.
+  - replace (Z.to_nat (level - cl + 1)) with (S (Z.to_nat (level - (cl + 1) + 1))) by lia.
+    cbn [expand]. remember (cl + 1) as c eqn:Ec.
+    assert (H : unwrap_list level l c = (flat_map (expand (Z.to_nat (level - c + 1))) l, c)).
+    { clear E Ec. induction IH as [|x r Hx _ IHr]; [reflexivity|]. cbn [unwrap_list flat_map].
+      rewrite Hx. cbn [fst snd]. rewrite IHr. reflexivity. }
+    rewrite H. cbn [fst snd]. f_equal. lia.
+Qed.
+Lemma unwrap_list_spec level l c :
+  unwrap_list level l c = (flat_map (expand (Z.to_nat (level - c + 1))) l, c).
+Proof.
+  induction l as [|x r IH]; [reflexivity|]. cbn [unwrap_list flat_map].
+  rewrite unwrap_val_spec. cbn [fst snd]. now rewrite IH.
+Qed.
+Lemma flatten_spec_depth l d : m_flatten [VArr l; VInt d] = Ok (VArr (flatten_spec (Z.to_nat d) l)).
+Proof.
+  cbn. rewrite unwrap_list_spec. cbn [fst]. replace (d - 1 + 1) with d by lia. now rewrite expand_flatten.
+Qed.
+Lemma flatten_spec_default l : m_flatten [VArr l] = Ok (VArr (flatten_spec 1 l)).
+Proof. cbn. rewrite unwrap_list_spec. cbn [fst]. now rewrite expand_flatten. Qed.
